@@ -63,7 +63,9 @@ def closed_shape(rng, cid):
 
 def run(replay=None):
     ck = common.Check("C11", level="proof")
+    rep = common.regen_translators()      # Gen/RenderSkeleton_gen.v: Mesh::render's phase skeleton per algorithm, from the source
     proof = ck.proof_obligations()
+    ck.coverage["translators"] = {k: v for k, v in rep.items() if "Render" in k or v != "ok"}
     ok_h, log_h = common.build_harness(["bin/expr"])
     if not ok_h:
         ck.violation("build", "harness does not build against /repo working tree", {"log": log_h[-3000:]}, no_input=True)
